@@ -3,8 +3,9 @@
 -/
 import WS.Lemmas.Stream
 import WS.Lemmas.Timeouts
+import WS.Lemmas.Resume
 namespace WS.Props.C03
-open WS WS.Model WS.Spec WS.Lemmas.RecvStrict WS.Lemmas.Parser WS.Lemmas.Stream WS.Lemmas.Timeouts
+open WS WS.Model WS.Spec WS.Lemmas.RecvStrict WS.Lemmas.Parser WS.Lemmas.Stream WS.Lemmas.Timeouts WS.Lemmas.Staged WS.Lemmas.Resume
 
 /-- a read on a released connection (`self.sock is None`) raises CLOSED and touches nothing. -/
 theorem sockRecv_released (c : Conn) (n : Nat) (h : c.hasSock = false) : c.sockRecv n = (.error .closed, c) := by
@@ -44,5 +45,32 @@ theorem C03_timeout_recv_strict (c : Conn) (n : Nat) (hl : Live c) (hp : Plain c
   apply recvStrictLoop_plain _ c n hl hp
   have := bytesOf_le_size c.sock.inp
   unfold Sock.size; omega
+
+/-- **C03_timeouts** — a receive timeout at ANY byte position (inside the header, the extended length, the mask
+    key or the payload), any number of times, over any chunking: after `k` calls that each raised TIMEOUT the
+    connection is still usable, the parser state is consistent, and the byte stream from the start of the frame in
+    progress is exactly what it was — nothing lost, duplicated or reordered. -/
+theorem C03_timeouts (c ck : Conn) (k : Nat) (hl : Live c) (hp : Plain c.sock.inp) (hws : WellStaged c)
+    (ht : TimedOut c k ck) :
+    vpending ck = vpending c ∧ WellStaged ck ∧ Live ck ∧ Plain ck.sock.inp :=
+  timedOut_preserves ht hl hp hws
+
+/-- **C03_resume** — … and when the bytes have finally arrived, the retried call returns exactly the frame the
+    RFC decoder reads from the ORIGINAL stream (what the one-chunk, no-timeout run returns by `C02_decode`) and
+    leaves exactly the bytes that follow it. Together with `C03_segmentation`: observations are a function of
+    the bytes sent, whatever the segmentation and wherever the timeouts fall. -/
+theorem C03_resume (c ck : Conn) (k : Nat) (hl : Live c) (hp : Plain c.sock.inp) (hclr : Cleared c)
+    (ht : TimedOut c k ck) (hch : Chunks ck.sock.inp)
+    (w : WireFrame) (rest : Bytes) (hdec : decode (pending c) = .frame w rest) :
+    ∃ c', ck.recvFrame = (outcome ck.skipUtf8 w, c') ∧ pending c' = rest ∧ Cleared c' := by
+  have hws : WellStaged c := by
+    obtain ⟨a, b, cc⟩ := hclr
+    simp [WellStaged, a, b, cc]
+  obtain ⟨hv, hwsk, hlk, _⟩ := timedOut_preserves ht hl hp hws
+  have hvc : vpending c = pending c := by
+    obtain ⟨a, _, _⟩ := hclr
+    simp [vpending, stageBytes, a]
+  rw [← hvc, ← hv] at hdec
+  exact recvFrame_resume ck hlk hch hwsk w rest hdec
 
 end WS.Props.C03
